@@ -108,7 +108,7 @@ pub fn bounds(ctx: &Ctx) -> (usize, usize) {
 }
 
 /// C01 / C03(basic) / C15 over the shared accepted-only history set.
-pub fn check_file_prop(ctx: &Ctx, p: FileProp) -> i32 {
+pub fn collect_file_prop(ctx: &Ctx, p: FileProp) -> (Tally, Meta) {
     let (nv, na) = bounds(ctx);
     let items = items_for(ctx.thorough, nv, na, true);
     let tally = par_items(&items, ctx.seed, |idx, it, t| {
@@ -118,10 +118,7 @@ pub fn check_file_prop(ctx: &Ctx, p: FileProp) -> i32 {
         }
     });
     let nconf = hist::configs(ctx.thorough).len();
-    finish(
-        ctx,
-        &tally,
-        Meta {
+    let meta = Meta {
             level: "model_checking",
             rule: format!(
                 "every accepted-only history: all submission orders of <= {nv} video and <= {na} audio writes (first write video) x 3 DTS patterns x {{write_video, with_dts pts=dts, every non-identity permutation of PTS among the frames}} x all key-flag vectors x frame-size patterns x {nconf} configurations; each executed on the real muxer, finished, parsed by the independent reader; an outcome is distinct by (result vector, output bytes) and non-trivial when the file parses"
@@ -133,8 +130,13 @@ pub fn check_file_prop(ctx: &Ctx, p: FileProp) -> i32 {
                 "payloads are tagged patterns of 1..300 bytes; behaviours that depend on payload size beyond 300 bytes are not covered".into(),
             ],
             extra: json!({"configurations": nconf}),
-        },
-    )
+    };
+    (tally, meta)
+}
+
+pub fn check_file_prop(ctx: &Ctx, p: FileProp) -> i32 {
+    let (tally, meta) = collect_file_prop(ctx, p);
+    finish(ctx, &tally, meta)
 }
 
 /// C08: every history of the set executed with fast start on and off.
